@@ -238,3 +238,270 @@ Proof.
   intros H U. pose proof (sim_cfm_fallback _ _ _ _ _ _ H U) as Hs.
   pose proof (cfm_fallback_total_any r ds (strip s) eq_refl) as T. rewrite Hs in T. exact T.
 Qed.
+
+(** ** GetFromComposite through the composites *)
+Lemma sim_bgfc b d : sim (bgfc b d).
+Proof.
+  intros s c s1 H. unfold bgfc in H. destruct (record b CGfc [d] s) as [f s0] eqn:R.
+  destruct (sim_record _ _ _ _ _ _ R) as [Hl Hs].
+  assert (Hs1 : s1 = s0) by (destruct (f =? 0); inversion H; reflexivity). subst s1.
+  split; [exact Hl|]. intros U. unfold bgfc. rewrite (Hs U). rewrite contents_strip.
+  destruct (f =? 0); inversion H; reflexivity.
+Qed.
+
+Lemma sim_sink_gfc_nf d : sim (sink_gfc_nf d).
+Proof.
+  intros s c s1 H. unfold sink_gfc_nf in *. destruct (bgfc BA d s) as [b s0] eqn:G.
+  destruct (sim_bgfc _ _ _ _ _ G) as [Gl Gs]. inversion H; subst.
+  split; [exact Gl|]. intros U. rewrite (Gs U). reflexivity.
+Qed.
+
+Lemma sim_deco_gfc r d : sim (fun s => let (c, s1) := rmultiple r [d] s in if c =? 0 then sink_gfc_nf d s1 else (c, s1)).
+Proof.
+  intros s c s1 H. cbn beta in *. destruct (rmultiple r [d] s) as [c0 s0] eqn:R.
+  destruct (sim_rmultiple _ _ _ _ _ R) as [Rl Rs].
+  destruct (c0 =? 0) eqn:Ec.
+  - destruct (sim_sink_gfc_nf _ _ _ _ H) as [Gl Gs]. destruct (sim_seq_log _ _ _ Rl Gl) as [Al Au].
+    split; [exact Al|]. intros U. rewrite (Rs (Au U)), Ec. apply Gs, U.
+  - inversion H; subst. split; [exact Rl|]. intros U. rewrite (Rs U), Ec. reflexivity.
+Qed.
+
+Lemma sim_rcomposite r d : sim (rcomposite r d).
+Proof.
+  destruct r; cbn [rcomposite].
+  - apply (sim_deco_gfc RLocal).
+  - apply sim_bgfc.
+  - apply (sim_deco_gfc (RDedup r)).
+  - apply (sim_deco_gfc (RLimit r)).
+Qed.
+
+Lemma sim_cgfc r d : sim (cgfc r d).
+Proof.
+  intros s c s1 H. unfold cgfc in *. destruct (bgfc BA d s) as [b s0] eqn:G.
+  destruct (sim_bgfc _ _ _ _ _ G) as [Gl Gs].
+  destruct (b =? 5) eqn:E5.
+  - destruct (sim_rcomposite _ _ _ _ _ H) as [Rl Rs]. destruct (sim_seq_log _ _ _ Gl Rl) as [Al Au].
+    split; [exact Al|]. intros U. rewrite (Gs (Au U)), E5. apply Rs, U.
+  - inversion H; subst. split; [exact Gl|]. intros U. rewrite (Gs U), E5. reflexivity.
+Qed.
+
+(** Composite read: if no recorded call of the step failed, the result is
+    the one of the completeness theorem, whatever faults were left. *)
+Theorem cgfc_complete_unfaulted r d s c s1 : (copying r = true \/ r = RNoop) ->
+  cgfc r d s = (c, s1) -> unfaulted (lg s1) = true ->
+  c = if memb d (sa s) || memb d (sb s) then 0 else 5.
+Proof.
+  intros Hr H U. destruct (sim_cgfc _ _ _ _ _ H) as [_ Hs]. specialize (Hs U).
+  pose proof (cgfc_complete_copying r d (strip s) Hr eq_refl) as C. rewrite Hs in C. exact C.
+Qed.
+
+(** ** A backend failure other than NOT_FOUND always surfaces.
+
+    [hard l]: some recorded call carries an injected fault other than
+    NOT_FOUND.  [surf X]: [X] extends the log, and if the part it added
+    contains such a call, [X] ends with an error.  Holds for Get and
+    GetFromComposite through every replicator stack. *)
+Definition hardc (c : call) : bool := negb (c_fault c =? 0) && negb (c_fault c =? 5).
+Definition hard (l : list call) : bool := existsb hardc l.
+
+Lemma hard_app l1 l2 : hard (l1 ++ l2) = hard l1 || hard l2.
+Proof. apply existsb_app. Qed.
+
+Definition surf (X : st -> Z * st) : Prop :=
+  forall s c s1, X s = (c, s1) -> exists l, lg s1 = l ++ lg s /\ (hard l = true -> c <> 0).
+
+(** A single backend call: one log entry; a non-zero fault is the answer. *)
+Definition one_call (X : st -> Z * st) : Prop :=
+  forall s c s1, X s = (c, s1) -> exists cl, lg s1 = cl :: lg s /\ (c_fault cl <> 0 -> c = c_fault cl).
+
+Lemma record_one b o args s f s1 : record b o args s = (f, s1) -> lg s1 = mkcall b o args f :: lg s.
+Proof. unfold record. destruct (fl s); intros H; inversion H; reflexivity. Qed.
+
+Lemma one_bget b d : one_call (bget b d).
+Proof.
+  intros s c s1 H. unfold bget in H. destruct (record b CGet [d] s) as [f s0] eqn:R.
+  apply record_one in R. exists (mkcall b CGet [d] f). cbn [c_fault].
+  destruct (f =? 0) eqn:E; inversion H; subst; split; try exact R; intros Hf.
+  - apply Z.eqb_eq in E. contradiction.
+  - reflexivity.
+Qed.
+
+Lemma one_bgfc b d : one_call (bgfc b d).
+Proof.
+  intros s c s1 H. unfold bgfc in H. destruct (record b CGfc [d] s) as [f s0] eqn:R.
+  apply record_one in R. exists (mkcall b CGfc [d] f). cbn [c_fault].
+  destruct (f =? 0) eqn:E; inversion H; subst; split; try exact R; intros Hf.
+  - apply Z.eqb_eq in E. contradiction.
+  - reflexivity.
+Qed.
+
+Lemma one_bput b d buf : one_call (bput b d buf).
+Proof.
+  intros s c s1 H. unfold bput in H. destruct (record b CPut [d] s) as [f s0] eqn:R.
+  apply record_one in R. exists (mkcall b CPut [d] f). cbn [c_fault].
+  destruct (f =? 0) eqn:E; cbn [negb] in H.
+  - apply Z.eqb_eq in E. split; [|intros Hf; contradiction].
+    destruct (negb (buf =? 0)); inversion H; subst; [exact R|]. destruct b; exact R.
+  - inversion H; subst. split; [exact R|reflexivity].
+Qed.
+
+Lemma one_bfm b ds s c m s1 : bfm b ds s = (c, m, s1) ->
+  exists cl, lg s1 = cl :: lg s /\ (c_fault cl <> 0 -> c = c_fault cl).
+Proof.
+  intros H. unfold bfm in H. destruct (record b CFm ds s) as [f s0] eqn:R.
+  apply record_one in R. exists (mkcall b CFm ds f). cbn [c_fault].
+  destruct (f =? 0) eqn:E; inversion H; subst; split; try exact R; intros Hf.
+  - apply Z.eqb_eq in E. contradiction.
+  - reflexivity.
+Qed.
+
+Lemma hard_one cl : hard [cl] = true -> c_fault cl <> 0 /\ c_fault cl <> 5.
+Proof.
+  unfold hard, hardc. cbn [existsb]. rewrite orb_false_r. intros H. apply andb_prop in H. destruct H as [H0 H5].
+  apply negb_true_iff in H0, H5. apply Z.eqb_neq in H0, H5. split; assumption.
+Qed.
+
+(** The answer of a single call whose log entry is hard: that fault. *)
+Lemma one_hard X : one_call X -> forall s c s1, X s = (c, s1) ->
+  exists cl, lg s1 = [cl] ++ lg s /\ (hard [cl] = true -> c <> 0 /\ c <> 5).
+Proof.
+  intros HX s c s1 H. destruct (HX _ _ _ H) as (cl & Hl & Hf). exists cl. split; [exact Hl|].
+  intros Hh. apply hard_one in Hh. destruct Hh as [H0 H5]. rewrite (Hf H0). split; assumption.
+Qed.
+
+Lemma surf_one X : one_call X -> surf X.
+Proof.
+  intros HX s c s1 H. destruct (one_hard X HX _ _ _ H) as (cl & Hl & Hh). exists [cl]. split; [exact Hl|].
+  intros Hd. apply Hh, Hd.
+Qed.
+
+Lemma surf_local_multiple ds : surf (local_multiple ds).
+Proof.
+  induction ds as [|d r IH]; intros s c s1 H; cbn [local_multiple] in H.
+  - inversion H; subst. exists []. split; [reflexivity|discriminate].
+  - destruct (bget BB d s) as [b s0] eqn:G. destruct (bput BA d b s0) as [c0 s2] eqn:P.
+    destruct (one_hard _ (one_bget BB d) _ _ _ G) as (g & Gl & Gh).
+    destruct (one_bput BA d b _ _ _ P) as (q & Pl & Pf).
+    assert (Hc0 : hard ([q] ++ [g]) = true -> c0 <> 0).
+    { rewrite hard_app. intros Hh. apply orb_prop in Hh. destruct Hh as [Hh|Hh].
+      - apply hard_one in Hh. destruct Hh as [H0 _]. rewrite (Pf H0). exact H0.
+      - destruct (Gh Hh) as [Hb0 _]. intros ->.
+        (* Put answered 0: then the buffer was a data buffer *)
+        unfold bput in P. destruct (record BA CPut [d] s0) as [f s0']. destruct (negb (f =? 0)) eqn:Ef.
+        + inversion P. subst f. discriminate.
+        + destruct (negb (b =? 0)) eqn:Eb; [inversion P; contradiction|].
+          apply negb_false_iff, Z.eqb_eq in Eb. contradiction. }
+    destruct (c0 =? 0) eqn:Ec.
+    + apply Z.eqb_eq in Ec. destruct (IH _ _ _ H) as (l & Il & Ih). exists (l ++ [q] ++ [g]).
+      split; [rewrite Il, Pl, Gl; cbn [app]; rewrite <- app_assoc; reflexivity|].
+      rewrite hard_app. intros Hh. apply orb_prop in Hh. destruct Hh as [Hh|Hh]; [apply Ih, Hh|].
+      exfalso. apply (Hc0 Hh Ec).
+    + inversion H; subst. exists ([q] ++ [g]). split; [rewrite Pl, Gl; reflexivity|exact Hc0].
+Qed.
+
+Lemma surf_seq_nil s : exists l : list call, lg s = l ++ lg s /\ (hard l = true -> 0 <> 0).
+Proof. exists []. split; [reflexivity|discriminate]. Qed.
+
+Lemma surf_rmultiple r : forall ds, surf (rmultiple r ds).
+Proof.
+  induction r as [| |r IH|r IH]; intros ds.
+  - apply surf_local_multiple.
+  - intros s c s1 H. cbn [rmultiple] in H. inversion H; subst. apply surf_seq_nil.
+  - intros s c s1 H. cbn [rmultiple] in H. revert s c s1 H.
+    induction ds as [|d rest IHd]; intros s c s1 H.
+    + inversion H; subst. apply surf_seq_nil.
+    + destruct (bfm BA [d] s) as [[c0 miss] s0] eqn:F.
+      destruct (one_bfm _ _ _ _ _ _ F) as (q & Fl & Ff).
+      assert (Fh : hard [q] = true -> c0 <> 0).
+      { intros Hh. apply hard_one in Hh. destruct Hh as [H0 _]. rewrite (Ff H0). exact H0. }
+      destruct (negb (c0 =? 0)) eqn:Ec.
+      * inversion H; subst. exists [q]. split; [exact Fl|exact Fh].
+      * apply negb_false_iff, Z.eqb_eq in Ec.
+        destruct miss as [|x miss'].
+        -- destruct (IHd _ _ _ H) as (l & Il & Ih). exists (l ++ [q]).
+           split; [rewrite Il, Fl; rewrite <- app_assoc; reflexivity|].
+           rewrite hard_app. intros Hh. apply orb_prop in Hh. destruct Hh as [Hh|Hh]; [apply Ih, Hh|].
+           exfalso. apply (Fh Hh Ec).
+        -- destruct (rmultiple r [d] s0) as [c2 s2] eqn:R.
+           destruct (IH _ _ _ _ R) as (l2 & Rl & Rh).
+           destruct (c2 =? 0) eqn:Ec2.
+           ++ apply Z.eqb_eq in Ec2. destruct (IHd _ _ _ H) as (l & Il & Ih). exists (l ++ l2 ++ [q]).
+              split; [rewrite Il, Rl, Fl; rewrite <- !app_assoc; reflexivity|].
+              rewrite !hard_app. intros Hh. apply orb_prop in Hh. destruct Hh as [Hh|Hh]; [apply Ih, Hh|].
+              apply orb_prop in Hh. destruct Hh as [Hh|Hh]; exfalso; [apply (Rh Hh Ec2)|apply (Fh Hh Ec)].
+           ++ apply Z.eqb_neq in Ec2. inversion H; subst. exists (l2 ++ [q]).
+              split; [rewrite Rl, Fl; rewrite <- app_assoc; reflexivity|]. intros _. exact Ec2.
+  - intros s c s1 H. cbn [rmultiple] in H. apply (IH ds). exact H.
+Qed.
+
+(** After the replicator's own ReplicateMultiple, the read-back ([Y], with
+    NOT_FOUND rewritten to INTERNAL). *)
+Lemma surf_deco r d (Y : st -> Z * st) : one_call Y ->
+  surf (fun s => let (c, s1) := rmultiple r [d] s in
+                 if c =? 0 then (let (b, s2) := Y s1 in ((if b =? 5 then 13 else b), s2)) else (c, s1)).
+Proof.
+  intros HY s c s1 H. cbn beta in H. destruct (rmultiple r [d] s) as [c0 s0] eqn:R.
+  destruct (surf_rmultiple _ _ _ _ _ R) as (l & Rl & Rh).
+  destruct (c0 =? 0) eqn:Ec.
+  - apply Z.eqb_eq in Ec. destruct (Y s0) as [b s2] eqn:G. inversion H; subst.
+    destruct (one_hard Y HY _ _ _ G) as (q & Gl & Gh). exists ([q] ++ l).
+    split; [rewrite Gl, Rl; rewrite <- app_assoc; reflexivity|].
+    rewrite hard_app. intros Hh. apply orb_prop in Hh. destruct Hh as [Hh|Hh].
+    + destruct (Gh Hh) as [H0 H5]. apply Z.eqb_neq in H5. rewrite H5. exact H0.
+    + exfalso. apply (Rh Hh). first [exact Ec|reflexivity].
+  - apply Z.eqb_neq in Ec. inversion H; subst. exists l. split; [exact Rl|]. intros _. exact Ec.
+Qed.
+
+Lemma surf_rcomposite r d : surf (rcomposite r d).
+Proof.
+  destruct r; cbn [rcomposite]; unfold sink_gfc_nf.
+  - apply (surf_deco RLocal d (bgfc BA d)), one_bgfc.
+  - apply surf_one, one_bgfc.
+  - apply (surf_deco (RDedup r) d (bgfc BA d)), one_bgfc.
+  - apply (surf_deco (RLimit r) d (bgfc BA d)), one_bgfc.
+Qed.
+
+Lemma surf_local_single d : surf (local_single d).
+Proof.
+  intros s c s1 H. unfold local_single in H.
+  destruct (bget BB d s) as [b s0] eqn:G. destruct (bput BA d b s0) as [c0 s2] eqn:P.
+  destruct (one_hard _ (one_bget BB d) _ _ _ G) as (g & Gl & Gh).
+  destruct (one_bput BA d b _ _ _ P) as (q & Pl & Pf).
+  exists ([q] ++ [g]). destruct (b =? 0) eqn:Eb; inversion H; subst.
+  - split; [rewrite Pl, Gl; reflexivity|]. apply Z.eqb_eq in Eb.
+    rewrite hard_app. intros Hh. apply orb_prop in Hh. destruct Hh as [Hh|Hh].
+    + apply hard_one in Hh. destruct Hh as [H0 _]. rewrite (Pf H0). exact H0.
+    + destruct (Gh Hh) as [Hb0 _]. contradiction.
+  - split; [rewrite Pl, Gl; reflexivity|]. intros _. apply Z.eqb_neq in Eb. exact Eb.
+Qed.
+
+Lemma surf_rsingle r d : surf (rsingle r d).
+Proof.
+  destruct r; cbn [rsingle]; unfold sink_get_nf.
+  - apply surf_local_single.
+  - apply surf_one, one_bget.
+  - apply (surf_deco (RDedup r) d (bget BA d)), one_bget.
+  - apply (surf_deco (RLimit r) d (bget BA d)), one_bget.
+Qed.
+
+(** The composites: first the initial backend ([Y]), on NOT_FOUND the replicator ([X]). *)
+Lemma surf_first (Y X : st -> Z * st) : one_call Y -> surf X ->
+  surf (fun s => let (b, s1) := Y s in if b =? 5 then X s1 else (b, s1)).
+Proof.
+  intros HY HX s c s1 H. cbn beta in H. destruct (Y s) as [b s0] eqn:G.
+  destruct (one_hard Y HY _ _ _ G) as (q & Gl & Gh).
+  destruct (b =? 5) eqn:E5.
+  - apply Z.eqb_eq in E5. destruct (HX _ _ _ H) as (l & Xl & Xh). exists (l ++ [q]).
+    split; [rewrite Xl, Gl; rewrite <- app_assoc; reflexivity|].
+    rewrite hard_app. intros Hh. apply orb_prop in Hh. destruct Hh as [Hh|Hh]; [apply Xh, Hh|].
+    destruct (Gh Hh) as [_ H5]. contradiction.
+  - inversion H; subst. exists [q]. split; [exact Gl|]. intros Hh. apply (Gh Hh).
+Qed.
+
+Theorem cgfc_hard_fault_surfaces r p s c s1 : cgfc r p s = (c, s1) ->
+  exists l, lg s1 = l ++ lg s /\ (hard l = true -> c <> 0).
+Proof. exact (surf_first (bgfc BA p) (rcomposite r p) (one_bgfc BA p) (surf_rcomposite r p) s c s1). Qed.
+
+Theorem cget_hard_fault_surfaces r d s c s1 : cget r d s = (c, s1) ->
+  exists l, lg s1 = l ++ lg s /\ (hard l = true -> c <> 0).
+Proof. exact (surf_first (bget BA d) (rsingle r d) (one_bget BA d) (surf_rsingle r d) s c s1). Qed.
